@@ -282,13 +282,52 @@ func (h *vf6AttH) runAtt(a *vf6Att, inCfg, outCfg config.RedisConfig, ln *vf6Lis
 	if !a.resume && c.sp.RunId != "?" {
 		ro.checkpointInMem = checkpoint.CheckpointInfo{Key: ro.cfg.CheckpointName, RunId: c.sp.RunId, Offset: c.sp.Offset, Version: config.Version}
 	}
+	// dimension audit (session 5): the OTHER side's state. Half of the attempts run on a target that is not the tool's
+	// alone: another syncer's checkpoint (another name) under the SAME run ids and far ahead in databases 0 and 7, a
+	// record of an older source (another run id) under OUR name far ahead in database 7, plain data in databases 3
+	// and 9 (so that GetCheckpoint's walk over the non-empty databases visits four of them and ends in the last).
+	// None of it may change what StartPoint answers, nor anything the attempt does afterwards (compared as before).
+	foreign := (c.s1>>1)%2 == 1
+	var spBefore StartPoint
+	if foreign {
+		spBefore, err = ro.StartPoint(bg, ids)
+		if err != nil {
+			t.Fatalf("real StartPoint: %v", err)
+		}
+		cli, cerr := ro.NewRedisConn(bg)
+		if cerr != nil {
+			t.Fatal(cerr)
+		}
+		for _, db := range []int{0, 7} {
+			cli.Do("select", db)
+			checkpoint.SetCheckpoint(cli, &checkpoint.CheckpointInfo{Key: "another-syncer-checkpoint", RunId: ids[0], Offset: 9000000 + int64(db), Version: config.Version})
+		}
+		checkpoint.SetCheckpoint(cli, &checkpoint.CheckpointInfo{Key: ro.cfg.CheckpointName, RunId: strings.Repeat("c", 40), Offset: 8000000, Version: config.Version})
+		cli.Do("select", 3)
+		cli.Do("set", "plain-key", "v")
+		cli.Do("select", 9)
+		cli.Do("hset", "plain-hash", "f", "v")
+		cli.Close()
+		h.s.Count("tgt_foreign_records_seeded")
+	} else {
+		h.s.Count("tgt_alone")
+	}
 	sp0, err := ro.StartPoint(bg, ids)
 	if err != nil {
 		t.Fatalf("real StartPoint: %v", err)
 	}
+	if foreign && (sp0.RunId != spBefore.RunId || sp0.Offset != spBefore.Offset) {
+		h.s.Violate("foreign-record-read", fmt.Sprintf("output.StartPoint(%v) answered %s:%d on the tool's own records and %s:%d once another syncer's checkpoint, a record of another run id and plain data in other databases were on the target",
+			ids, spBefore.RunId, spBefore.Offset, sp0.RunId, sp0.Offset), map[string]interface{}{"att": a.String()})
+	}
 	c.sp = StartPoint{RunId: sp0.RunId, Offset: sp0.Offset}
 
 	// ---- the cache
+	h.s.Count("cfg_resumeFromBreakPoint_" + vf6B(a.resume))
+	h.drawCrc(c)
+	if a.stale != nil && a.stale.snapLen > 8 && !c.cmd {
+		config.GetSyncerConfig().Channel.VerifyCrc = false // the successor's PRF snapshot has no CRC trailer
+	}
 	inner := h.newChannel(c, dir)
 	defer inner.Close()
 	if err := h.populate(c, inner, w); err != nil {
@@ -648,7 +687,7 @@ func vf6RunLoop(t *testing.T, inCfg config.RedisConfig, ln *vf6Listener, backend
 	id := vf6HexId(vfutil.NewRand(seed))
 	w := &vf6World{id1: id, id2: vf6ZeroId, switchOff: -2, sb: 1, s1: seed%99999 + 1, s2: 2, so: 3}
 	var nInfo atomic.Int32
-	src := &vf6Source{id1: id, id2: vf6ZeroId, switchOff: -2, backlog: true, first: 1, blen: 400, master: 400, snapLen: 50, capaId: true, k: 20, w: w, nInfo: &nInfo}
+	src := &vf6Source{id1: id, id2: vf6ZeroId, switchOff: -2, backlog: true, first: 1, blen: 400, master: 400, snapLen: 8, capaId: true, k: 20, w: w, nInfo: &nInfo} // 8 bytes: legal for a verifying reader too (the main sequence draws channel.verifyCrc meanwhile)
 	ln.cur.Store(src)
 	var ch Channel
 	dir, _ := os.MkdirTemp("", "vfc06l-")
@@ -1294,7 +1333,7 @@ func TestVerifC06Att(t *testing.T) {
 		out2.Addresses = []string{b2.ln.Addr().String()}
 		d := filepath.Join(tmp, name)
 		os.MkdirAll(d, 0o777)
-		h2 := &vf6AttH{vf6H: &vf6H{t: t, s: s, ln: ln2, tmp: d, inCfg: in2}, bridge: b2}
+		h2 := &vf6AttH{vf6H: &vf6H{t: t, s: s, ln: ln2, tmp: d, inCfg: in2, noCrc: true}, bridge: b2}
 		h2.patience.Store(20000)
 		h2.begin(1)
 		h2.runAtt(a0, in2, out2, ln2, b2, map[string]interface{}{"att": a0.String()})
@@ -1358,15 +1397,21 @@ func TestVerifC06Att(t *testing.T) {
 	lanes := make(chan *vf6AttH, 4)
 	nLanes := 0
 	if os.Getenv("VERIF_REPLAY_CASE") == "" {
-		for _, ans := range []string{"01", "000", "conn"} {
+		// dimension audit: "001" (two failures, then an answer) is drawn too; the lanes run beside the main sequence,
+		// which draws channel.verifyCrc: their snapshots are at most 8 bytes, legal under both values of the flag
+		for _, ans := range []string{"01", "001", "000", "conn"} {
 			a := vf6GenAtt(r)
 			a.plan, a.spAns, a.hdr, a.stale = "none", ans, "len", nil
 			if ans == "conn" {
 				a.plan, a.spAns = "conn", "1"
 			}
-			if a.c.src.snapLen <= 0 {
+			if a.c.src.snapLen <= 0 || a.c.src.snapLen > 8 {
 				a.c.src.snapLen = 7
 			}
+			if a.c.hasRdb && a.c.rdbSize > 8 {
+				a.c.rdbSize = 1 + a.c.rdbSize%8
+			}
+			s.Count("cfg_outputStartPoint_tries_" + ans)
 			nLanes++
 			go func(a *vf6Att, name string) { lanes <- lane(a, name) }(a, "lane"+ans)
 		}
